@@ -9,6 +9,10 @@ CHECKS = {
          "Sound static analysis of a structural necessary condition: every accepting path of VerifyRequest passes the success edge of the request-signature check and of the blinded-key equality, bound to the request's own fields; the cache is written only behind both. Holds for all inputs because it quantifies over paths. It does not prove that ECDSA rejects forgeries.",
          "Trusts go/ssa dominators, the checker's term evaluator, and crypto/elliptic, math/big, crypto/sha512 behaving as documented.",
          "DESIGN.md §4 C06"),
+ "C07": ("guard-dominance (must-pass-through) on SSA with symbolic argument bindings + decoder read-sequence extraction",
+         "Sound static analysis of structural necessary conditions: every path of RateLimitedIssuer.Evaluate that returns a response passes the success edges of complete parse, HPKE open under the issuer's own key with the request key in the associated data, registered-origin lookup and request-signature verification over all fields; BlindSign/Seal sit behind those edges; the request decoder checks every read and rejects trailing data. Quantifies over paths, hence over all inputs. Does not prove AEAD/ECDSA soundness (every single-bit change rejected).",
+         "Trusts go/ssa dominators, this checker's term/reader extraction, go-hpke, circl blindrsa and crypto/elliptic behaving as documented.",
+         "DESIGN.md §4 C07"),
 }
 PENDING_REASON = "check under construction in this round (see DESIGN.md §4 for the planned static rule); not claimed until the rule runs clean on the tree and fires on its seeded breakage"
 NOT_APPLICABLE = {}
